@@ -160,6 +160,78 @@ def ob_insert_delete_ties(width, rate, nnew, timeout):
               bounds="insert %d samples at an exact half-sample time, delete the same stretch" % nnew)
 
 
+def _setup_wave():
+    """environment stub: praatio.audio.wave.open returns an in-memory reader"""
+    from harness.C17 import FakeWave
+
+    old = audio.wave
+
+    class _W:
+        Wave_read = object
+
+        @staticmethod
+        def open(fn, mode="r"):
+            width, rate = fn
+            return FakeWave(SAMPLES, width, rate)
+
+    audio.wave = _W
+
+    def undo():
+        audio.wave = old
+
+    return undo
+
+
+def ob_query(width, rate, timeout):
+    dur = len(SAMPLES) / rate
+
+    def body(a, b):
+        q = audio.QueryWav((width, rate))
+        m = AR.ListWav(SAMPLES, rate)
+        i = m.idx(a)
+        cnt = AR.nearest(rate * (b - a), len(SAMPLES) + 2) if b >= a else 0
+        want = SAMPLES[i:i + cnt] if cnt > 0 else []
+        if list(q.getSamples(a, b)) != want:
+            return "QueryWav.getSamples"
+        if q.duration != dur:
+            return "QueryWav.duration"
+        if list(audio.convertFromBytes(q.getFrames(), width)) != SAMPLES:
+            return "QueryWav.getFrames() default is the whole file"
+        return True
+
+    return Ob("query-w%d-r%d" % (width, rate), F("a", "b"), body, lambda a, b: within(0.0, dur, a, b) & (a <= b), fmode="real", timeout=timeout, setup=_setup_wave, funcs=["praatio.audio.QueryWav.getFrames/getSamples/duration", "praatio.audio.readFramesAtTime"], bounds="QueryWav over an in-memory reader (6 samples, width %d, rate %d), arbitrary real times a <= b incl. (0,0)" % (width, rate))
+
+
+def ob_read_edit_read(op, width, rate, timeout):
+    """a read before the edit must not influence the read after it (no stale cache)"""
+    dur = len(SAMPLES) / rate
+
+    def body(a):
+        w = _wav(width, rate)
+        m = AR.ListWav(SAMPLES, rate)
+        w.getSamples(0.0, dur)
+        w.getFrames(0.0, dur)
+        ins = _struct.pack("<" + CODE[width] * len(NEW), *NEW)
+        if op == "insert":
+            w.insert(a, ins)
+            m.insert(a, NEW)
+        elif op == "delete":
+            w.deleteSegment(a, a + 0.25)
+            m.delete(a, a + 0.25)
+        else:
+            w.concatenate(ins)
+            m.s = m.s + NEW
+        if list(w.getSamples(0.0, 4.0)) != m.s:
+            return "read after %s returns stale samples" % op
+        if list(w.getSamples(0.125, 0.5)) != m.get(0.125, 0.5):
+            return "partial read after %s" % op
+        if w.duration != len(m.s) / rate:
+            return "duration"
+        return True
+
+    return Ob("read-%s-read-w%d" % (op, width), F("a"), body, lambda a: within(0.0, dur, a), fmode="real", timeout=timeout, funcs=FUNCS[:3], bounds="read everything, %s at an arbitrary real time, read everything again (6 samples, width %d, rate %d)" % (op, width, rate))
+
+
 def _setup_struct():
     old = audio.struct
     audio.struct = AR.FakeStruct
@@ -201,6 +273,9 @@ def obligations(tier):
         for op in ("delete", "insert", "replace", "concatenate"):
             obs.append(ob_edit(op, 2, 8, 120))
         obs.append(ob_edit2("concatenate", "insert", 1, 8, 300))
+        obs.append(ob_query(2, 8, 200))
+        obs.append(ob_read_edit_read("insert", 2, 8, 300))
+        obs.append(ob_read_edit_read("delete", 1, 8, 300))
         obs.append(ob_insert_delete(2, 8, 1, 120))
         obs.append(ob_insert_delete(2, 8, 2, 120))
         obs.append(ob_insert_delete_ties(2, 8, 1, 120))
@@ -216,6 +291,10 @@ def obligations(tier):
             for o1 in ("insert", "delete", "concatenate"):
                 for o2 in ("insert", "delete", "concatenate"):
                     obs.append(ob_edit2(o1, o2, width, 8, 1800))
+            obs.append(ob_query(width, 8, 900))
+            obs.append(ob_query(width, 10, 900))
+            for op in ("insert", "delete", "concatenate"):
+                obs.append(ob_read_edit_read(op, width, 8, 1800))
             for nn in (1, 2, 3):
                 obs.append(ob_insert_delete(width, 8, nn, 600))
                 obs.append(ob_insert_delete_ties(width, 8, nn, 600))
